@@ -229,6 +229,11 @@ func runC17(c *Ctx) {
 		}
 		rr := &dns.NSEC3{Hdr: dns.RR_Header{Name: randCase(r, toHash(o)+"."+presentLabels(zone)), Rrtype: dns.TypeNSEC3, Class: 1},
 			Hash: dns.SHA1, Iterations: uint16(iter), SaltLength: uint8(len(salt)), Salt: hex.EncodeToString(salt), HashLength: 20, NextDomain: toHash(nx)}
+		if r.Chance(35) {
+			// the next hashed owner in the spelling a zone file may use (base32hex is case-insensitive, RFC 4648 / RFC 5155 3.3)
+			rr.NextDomain = strings.ToLower(rr.NextDomain)
+			c.Hit("interval:next-hash-lower-case")
+		}
 		q := randCase(r, presentLabels(name))
 		shape := "normal"
 		if o.Cmp(nx) > 0 {
